@@ -86,6 +86,13 @@ func runC01(c *Cfg) {
 		}
 	})
 	hugeBudgetCases(c, "C01")
+	// payloads of the library's own Action type: data like any other — post alone decides the action
+	ap := actionPayloadCases()
+	parallel(c, len(ap), func(i int) {
+		judgeFor(c, "C01", "action-typed-payload", ap[i])
+		r.Count("action_typed_payload.cases", 1)
+		r.Nontrivial("ap:" + scenSig(ap[i]))
+	})
 	r.Exhaustive = true
 	r.Note(fmt.Sprintf("standalone product enumerated completely: %d cases (11 node kinds x budgets 1..8 x first-success index 1..N+1 x fallback x prep x post)", len(cases)))
 	// 2. nodes embedded in generated flows, with one run-ending failure injected at a random on-path position
@@ -275,31 +282,26 @@ func runC02(c *Cfg) {
 			}
 		}
 	}
+	// the same with the retried flow nested 0..3 levels deep and a worker that recovers on a later flow attempt
+	fr = append(fr, flowRetryCases()...)
 	parallel(c, len(fr), func(i int) {
 		outs, mrs := judgeFor(c, "C02", "flow-with-retries", fr[i])
 		if !scen.FullTraceEqual(&mrs[0], &outs[0]) {
 			// the flow is itself a node with a retry budget: its exec (one pass over its path) is attempted min(k, N) times
-			r.Violate("C02", "C02:flow-attempts", fmt.Sprintf("a flow with retry budget %d around an always-failing node: observed callbacks %v, a node with that budget is attempted exactly %d times: %v", fr[i].Nodes[1].Flow.Retries, keysOf(outs[0].Events), fr[i].Nodes[1].Flow.Retries, mrs[0].Keys), ScenCase{"flow-with-retries", fr[i]})
+			budget := 0
+			for _, ns := range fr[i].Nodes {
+				if ns.Flow != nil && ns.Flow.Retries > budget {
+					budget = ns.Flow.Retries
+				}
+			}
+			r.Violate("C02", "C02:flow-attempts", fmt.Sprintf("a flow with retry budget %d (used as a node, nesting depth %d) around a failing node: observed callbacks %v; a node with that budget is attempted until its first success and at most %d times: %v", budget, fr[i].MaxNesting()-1, keysOf(outs[0].Events), budget, mrs[0].Keys), ScenCase{"flow-with-retries", fr[i]})
 		}
 		r.Count("flow_with_retries.cases", 1)
 		r.Nontrivial("fr:" + scenSig(fr[i]))
 	})
 	// cancellation inside the LAST failing attempt, with a retry wait configured and a fallback installed: all N
 	// attempts failed, so the fallback is still owed
-	var cl []*scen.Scenario
-	for kind := 0; kind < scen.NumScriptedKinds; kind++ {
-		if !scen.KindHasRetry(kind) || !scen.KindCanFB(kind) {
-			continue
-		}
-		for nb := 1; nb <= 3; nb++ {
-			for _, w := range []int{0, 1} {
-				for _, ik := range []string{"cancel", "deadline"} {
-					ns := scen.NodeSpec{Kind: kind, N: nb, HasFB: true, WaitMs: w, Visits: []scen.Visit{{FirstOK: nb + 1, Post: "go"}}}
-					cl = append(cl, &scen.Scenario{Nodes: []scen.NodeSpec{ns}, Root: 0, Runs: 1, Inject: scen.Inject{Kind: ik, At: nb}}) // ordinal nb = the last exec attempt
-				}
-			}
-		}
-	}
+	cl := cancelInLastAttemptCases(true)
 	parallel(c, len(cl), func(i int) {
 		judgeFor(c, "C02", "cancel-in-last-attempt", cl[i])
 		r.Count("cancel_in_last_attempt.cases", 1)
